@@ -441,6 +441,18 @@ func run(tb ev.TB, c xCase) (labels []string, nontrivial bool) {
 							by.Close()
 							by.Close()
 						}
+						if k.Tag%3 == 0 {
+							// A batch that was closed with half of its (compressed) records unread is asked once more, after another
+							// batch has been decompressed: a closed batch has nothing to deliver, least of all records of the other one.
+							if _, err := connY.Seek(0, kafka.SeekStart); err == nil {
+								b2 := connY.ReadBatchWith(kafka.ReadBatchConfig{MinBytes: 1, MaxBytes: 1 << 20, MaxWait: 20 * time.Millisecond})
+								b2.ReadMessage()
+								if late, err := b.ReadMessage(); err == nil {
+									got = append(got, fmt.Sprintf("-1:closed-batch-delivered-%s-at-%d", late.Value, late.Offset))
+								}
+								b2.Close()
+							}
+						}
 						// the other Conn's position is shared by the readZ callers only: whatever offsets came, each value must be
 						// the record of topic z at that offset -- also when a later read of the batch failed
 						for _, g := range got {
